@@ -248,4 +248,290 @@ theorem three_drivers_agree_no_slice (c : Chain σ α) (xs : List α) (bufsize :
         simp [hk, observe]
       | none => rw [ht] at hk; simp at hk
 
+/-! ### non-vacuity: a concrete chain satisfying every hypothesis -/
+
+/-- `Sum()` on integers -/
+def exSum : Acc Int Int := { init := 0, fill := fun s v => .ok (s + v), compute := fun s => .ok [s] }
+
+/-- `(lambda v: v + 1, Filter(even), RunIf(v > 4, lambda v: v * 10), Slice(1, 4, 2), Sum(), lambda v: -v)` -/
+def exChain : Chain Int Int :=
+  { pre := [.call (fun v => .ok (v + 1)), .filter (fun v => .ok (v % 2 == 0)),
+            .runEl (fun s => .ok (runIfS (fun v => .ok (decide (v > 4))) (fun s => .ok (mapS (fun v => .ok (v * 10)) s)) s)),
+            .slice 1 (some 4) 2]
+    acc := exSum
+    post := [fun s => .ok (mapS (fun v => .ok (-v)) s)] }
+
+theorem exChain_wf : PreWF exChain.pre := by
+  intro e he
+  simp only [exChain, List.mem_cons, List.not_mem_nil, or_false] at he
+  rcases he with rfl | rfl | rfl | rfl
+  · trivial
+  · trivial
+  · exact runIf_breaksFlow _ _
+  · show 1 ≤ 2
+    omega
+
+theorem exSum_noStop : AccNoStop exSum := by
+  intro s v h
+  simp [exSum] at h
+
+example : PreSafe exChain.pre [1, 2, 3, 4, 5, 6, 7, 8, 9] := by rfl
+example : seqRun exChain [1, 2, 3, 4, 5, 6, 7, 8, 9] = ⟨[-84], none⟩ := by rfl
+example : fillRun exChain [1, 2, 3, 4, 5, 6, 7, 8, 9] = ⟨[-84], none⟩ := by rfl
+example : splitRun [exChain] (some 2) [1, 2, 3, 4, 5, 6, 7, 8, 9] = ⟨[-84], none⟩ := by rfl
+example : seqRun exChain [1, 2, 3, 4, 5, 6, 7, 8, 9] = fillRun exChain [1, 2, 3, 4, 5, 6, 7, 8, 9] ∧
+    splitRun [exChain] (some 3) [1, 2, 3, 4, 5, 6, 7, 8, 9] = fillRun exChain [1, 2, 3, 4, 5, 6, 7, 8, 9] :=
+  three_drivers_agree exChain _ (some 3) (by decide) exChain_wf exSum_noStop (by rfl)
+
+/-- the look-ahead value: `(boom, Slice(1), Sum())` on `[1, 13]`.  `islice` never pulls the second value, the
+explicit fill loop must offer it to `Slice.fill_into` to get `LenaStopFill`, and `boom` raises on it.  This is
+why `PreSafe` is a hypothesis of `seq_eq_fill` (and not of `fill_eq_split`). -/
+def exBoom : Chain Int Int :=
+  { pre := [.call (fun v => if v = 13 then .error .valueError else .ok v), .slice 0 (some 1) 1]
+    acc := exSum, post := [] }
+
+example : seqRun exBoom [1, 13] = ⟨[1], none⟩ := by rfl
+example : fillRun exBoom [1, 13] = .fail .valueError := by rfl
+example : ¬ PreSafe exBoom.pre [1, 13] := by
+  intro h
+  have : preSafeB exBoom.pre [1, 13] = false := by rfl
+  rw [PreSafe, this] at h
+  cases h
+
+/-! ## 3. The adapters (sentence 2)
+
+"The adapters Call, Run, FillInto, FillCompute and SourceEl preserve the meaning of the wrapped method for every
+method name and element kind they accept and raise LenaTypeError at construction for everything else."
+`c : Caps` is any object (any capability table), `name` any method name (`none` = no keyword argument). -/
+
+/-- the documented capability each adapter needs -/
+def callAccepts (c : Caps) : Option String → Bool
+  | none => c.callable
+  | some n => c.hasMethod n
+
+def sourceElAccepts (c : Caps) : Option String → Bool
+  | none => c.callable || (c.attr "__iter__").present
+  | some n => c.hasMethod n
+
+def runAccepts (c : Caps) : Option String → Bool
+  | none => c.hasMethod "run" || c.callable || c.isFillComputeEl
+  | some n => c.isNone || c.hasMethod n
+
+def fillIntoAccepts (c : Caps) : Option String → Bool
+  | none => c.hasMethod "fill_into" || (c.callable && !c.isSplit) || (c.isRunEl && (c.attr "_can_break_flow").present)
+  | some n => c.hasMethod n
+
+def fillComputeAccepts (c : Caps) (fill compute : String) : Bool :=
+  c.hasMethod fill && (c.hasMethod compute || c.hasMethod "request")
+
+/-- what an accepted adapter is bound to -/
+def callBinding : Option String → CallMode
+  | none => .self
+  | some n => .method n
+
+def sourceElBinding (c : Caps) : Option String → CallMode
+  | none => if c.callable then .self else .iter
+  | some n => .method n
+
+def runBinding (c : Caps) : Option String → RunMode
+  | none => if c.hasMethod "run" then .method "run" else if c.callable then .callRun else .fcRun
+  | some n => if c.isNone then .given else .method n
+
+def fillIntoBinding (c : Caps) : Option String → FillIntoMode
+  | none => if c.hasMethod "fill_into" then .method "fill_into"
+            else if c.callable && !c.isSplit then .callDefault else .runFillInto
+  | some n => .method n
+
+def fillComputeBinding (c : Caps) (fill compute : String) : String × String :=
+  (fill, if c.hasMethod compute then compute else "request")
+
+theorem call_accepts_iff (c : Caps) (name : Option String) :
+    (∃ m, mkCall c name = .ok m) ↔ callAccepts c name = true := by
+  cases name with
+  | none => by_cases h : c.callable = true <;> simp [mkCall, callAccepts, h]
+  | some n => by_cases h : c.hasMethod n = true <;> simp [mkCall, callAccepts, h]
+
+theorem call_rejects (c : Caps) (name : Option String) (h : callAccepts c name = false) :
+    mkCall c name = .error .lenaTypeError := by
+  cases name with
+  | none => simp only [callAccepts] at h; simp [mkCall, h]
+  | some n => simp only [callAccepts] at h; simp [mkCall, h]
+
+/-- `Call` is bound to the element itself, or to the method of the given name — never to anything else -/
+theorem call_preserves (c : Caps) (name : Option String) (m : CallMode) (h : mkCall c name = .ok m) :
+    m = callBinding name := by
+  cases name with
+  | none =>
+    simp only [mkCall] at h
+    split at h <;> simp_all
+  | some n =>
+    simp only [mkCall] at h
+    split at h <;> simp_all
+
+theorem sourceEl_accepts_iff (c : Caps) (name : Option String) :
+    (∃ m, mkSourceEl c name = .ok m) ↔ sourceElAccepts c name = true := by
+  cases name with
+  | none =>
+    by_cases h : c.callable = true <;> by_cases h2 : (c.attr "__iter__").present = true <;>
+      simp [mkSourceEl, sourceElAccepts, h, h2]
+  | some n => by_cases h : c.hasMethod n = true <;> simp [mkSourceEl, sourceElAccepts, h]
+
+theorem sourceEl_rejects (c : Caps) (name : Option String) (h : sourceElAccepts c name = false) :
+    mkSourceEl c name = .error .lenaTypeError := by
+  cases name with
+  | none =>
+    simp only [sourceElAccepts, Bool.or_eq_false_iff] at h
+    simp [mkSourceEl, h.1, h.2]
+  | some n => simp only [sourceElAccepts] at h; simp [mkSourceEl, h]
+
+/-- `SourceEl` is bound to the callable element, to `lambda: el` for a non-callable iterable, or to the named
+method -/
+theorem sourceEl_preserves (c : Caps) (name : Option String) (m : CallMode) (h : mkSourceEl c name = .ok m) :
+    m = sourceElBinding c name := by
+  cases name with
+  | none =>
+    simp only [mkSourceEl] at h
+    split at h
+    · simp_all
+    · split at h <;> simp_all
+  | some n =>
+    simp only [mkSourceEl] at h
+    split at h <;> simp_all
+
+theorem run_accepts_iff (c : Caps) (name : Option String) :
+    (∃ m, mkRun c name = .ok m) ↔ runAccepts c name = true := by
+  cases name with
+  | none =>
+    by_cases h : c.hasMethod "run" = true <;> by_cases h2 : c.callable = true <;>
+      by_cases h3 : c.isFillComputeEl = true <;> simp [mkRun, runAccepts, h, h2, h3]
+  | some n =>
+    by_cases h : c.isNone = true <;> by_cases h2 : c.hasMethod n = true <;> simp [mkRun, runAccepts, h, h2]
+
+theorem run_rejects (c : Caps) (name : Option String) (h : runAccepts c name = false) :
+    mkRun c name = .error .lenaTypeError := by
+  cases name with
+  | none =>
+    simp only [runAccepts, Bool.or_eq_false_iff] at h
+    simp [mkRun, h.1.1, h.1.2, h.2]
+  | some n =>
+    simp only [runAccepts, Bool.or_eq_false_iff] at h
+    simp [mkRun, h.1, h.2]
+
+/-- `Run.run` is the element's own `run` if it has one, else the map of the callable over the flow, else
+fill-all-then-compute; with a method name it is that method (or the given function for `Run(None, run=f)`) -/
+theorem run_preserves (c : Caps) (name : Option String) (m : RunMode) (h : mkRun c name = .ok m) :
+    m = runBinding c name := by
+  cases name with
+  | none =>
+    simp only [mkRun] at h
+    split at h
+    · simp_all
+    · split at h
+      · simp_all
+      · split at h <;> simp_all
+  | some n =>
+    simp only [mkRun] at h
+    split at h
+    · simp_all
+    · split at h <;> simp_all
+
+theorem fillInto_accepts_iff (c : Caps) (name : Option String) :
+    (∃ m, mkFillInto c name = .ok m) ↔ fillIntoAccepts c name = true := by
+  cases name with
+  | none =>
+    by_cases h : c.hasMethod "fill_into" = true <;> by_cases h2 : (c.callable && !c.isSplit) = true <;>
+      by_cases h3 : (c.isRunEl && (c.attr "_can_break_flow").present) = true <;>
+      simp [mkFillInto, fillIntoAccepts, h, h2, h3]
+  | some n => by_cases h : c.hasMethod n = true <;> simp [mkFillInto, fillIntoAccepts, h]
+
+/-- in particular: an explicitly given method name that is missing or not callable is rejected, whatever else
+the element can do (this is what the seeded change C05-B breaks) -/
+theorem fillInto_rejects (c : Caps) (name : Option String) (h : fillIntoAccepts c name = false) :
+    mkFillInto c name = .error .lenaTypeError := by
+  cases name with
+  | none =>
+    simp only [fillIntoAccepts, Bool.or_eq_false_iff] at h
+    simp [mkFillInto, h.1.1, h.1.2, h.2]
+  | some n => simp only [fillIntoAccepts] at h; simp [mkFillInto, h]
+
+/-- `FillInto.fill_into` is the element's own `fill_into`, else `element.fill(el(value))` for a callable that is
+not a `Split`, else `_run_fill_into` for a Run element with `_can_break_flow`; with a name it is that method -/
+theorem fillInto_preserves (c : Caps) (name : Option String) (m : FillIntoMode) (h : mkFillInto c name = .ok m) :
+    m = fillIntoBinding c name := by
+  cases name with
+  | none =>
+    simp only [mkFillInto] at h
+    split at h
+    · simp_all
+    · split at h
+      · simp_all
+      · split at h <;> simp_all
+  | some n =>
+    simp only [mkFillInto] at h
+    split at h <;> simp_all
+
+theorem fillCompute_accepts_iff (c : Caps) (fill compute : String) :
+    (∃ m, mkFillCompute c fill compute = .ok m) ↔ fillComputeAccepts c fill compute = true := by
+  by_cases h : c.hasMethod fill = true <;> by_cases h2 : c.hasMethod compute = true <;>
+    by_cases h3 : c.hasMethod "request" = true <;> simp [mkFillCompute, fillComputeAccepts, h, h2, h3]
+
+theorem fillCompute_rejects (c : Caps) (fill compute : String) (h : fillComputeAccepts c fill compute = false) :
+    mkFillCompute c fill compute = .error .lenaTypeError := by
+  by_cases h1 : c.hasMethod fill = true <;> by_cases h2 : c.hasMethod compute = true <;>
+    by_cases h3 : c.hasMethod "request" = true <;> simp_all [mkFillCompute, fillComputeAccepts]
+
+/-- `FillCompute.fill` is the method named `fill`; `compute` is the method named `compute`, or `request` when
+that one is missing (cast from a FillRequest element) -/
+theorem fillCompute_preserves (c : Caps) (fill compute : String) (m : String × String)
+    (h : mkFillCompute c fill compute = .ok m) :
+    m = fillComputeBinding c fill compute := by
+  simp only [mkFillCompute] at h
+  split at h
+  · split at h
+    · simp_all
+    · split at h <;> simp_all
+  · simp_all
+
+/-- **Sentence 2, acceptance**: each adapter is constructed iff the documented capability is present, and every
+other combination of element and method name raises `LenaTypeError` (and nothing else) at construction -/
+theorem adapter_accepts_iff (c : Caps) (name : Option String) (fill compute : String) :
+    ((∃ m, mkCall c name = .ok m) ↔ callAccepts c name = true) ∧
+    ((∃ m, mkSourceEl c name = .ok m) ↔ sourceElAccepts c name = true) ∧
+    ((∃ m, mkRun c name = .ok m) ↔ runAccepts c name = true) ∧
+    ((∃ m, mkFillInto c name = .ok m) ↔ fillIntoAccepts c name = true) ∧
+    ((∃ m, mkFillCompute c fill compute = .ok m) ↔ fillComputeAccepts c fill compute = true) ∧
+    (callAccepts c name = false → mkCall c name = .error .lenaTypeError) ∧
+    (sourceElAccepts c name = false → mkSourceEl c name = .error .lenaTypeError) ∧
+    (runAccepts c name = false → mkRun c name = .error .lenaTypeError) ∧
+    (fillIntoAccepts c name = false → mkFillInto c name = .error .lenaTypeError) ∧
+    (fillComputeAccepts c fill compute = false → mkFillCompute c fill compute = .error .lenaTypeError) :=
+  ⟨call_accepts_iff c name, sourceEl_accepts_iff c name, run_accepts_iff c name, fillInto_accepts_iff c name,
+   fillCompute_accepts_iff c fill compute, call_rejects c name, sourceEl_rejects c name, run_rejects c name,
+   fillInto_rejects c name, fillCompute_rejects c fill compute⟩
+
+/-- **Sentence 2, meaning**: an accepted adapter exposes the wrapped method (the one named, or the element's own),
+or the documented conversion of the element — nothing else -/
+theorem adapter_preserves (c : Caps) (name : Option String) (fill compute : String) :
+    (∀ m, mkCall c name = .ok m → m = callBinding name) ∧
+    (∀ m, mkSourceEl c name = .ok m → m = sourceElBinding c name) ∧
+    (∀ m, mkRun c name = .ok m → m = runBinding c name) ∧
+    (∀ m, mkFillInto c name = .ok m → m = fillIntoBinding c name) ∧
+    (∀ m, mkFillCompute c fill compute = .ok m → m = fillComputeBinding c fill compute) :=
+  ⟨call_preserves c name, sourceEl_preserves c name, run_preserves c name, fillInto_preserves c name,
+   fillCompute_preserves c fill compute⟩
+
+/-- a callable object with a method `fill_negated` and a non-callable attribute `not_a_method` (the `Scaler` of the
+seeded demonstration) -/
+def exScaler : Caps := capsOf [("fill_negated", .method), ("not_a_method", .value)] true
+
+example : mkFillInto exScaler none = .ok .callDefault := by rfl
+example : mkFillInto exScaler (some "fill_negated") = .ok (.method "fill_negated") := by rfl
+example : mkFillInto exScaler (some "fill_negate") = .error .lenaTypeError := by rfl
+example : mkFillInto exScaler (some "not_a_method") = .error .lenaTypeError := by rfl
+example : fillIntoAccepts exScaler (some "fill_negate") = false := by rfl
+example : mkRun (capsOf [("fill", .method), ("compute", .method)] false) none = .ok .fcRun := by rfl
+example : mkFillCompute (capsOf [("fill", .method), ("request", .method)] false) "fill" "compute"
+    = .ok ("fill", "request") := by rfl
+example : mkSourceEl (capsOf [("__iter__", .method)] false) none = .ok .iter := by rfl
+
 end Lena.C05
